@@ -115,6 +115,13 @@ func (w *Walker) EventsOf(fr *Frame) []*Event {
 	}
 	for _, b := range f.Blocks {
 		for _, ins := range b.Instrs {
+			if st, ok := ins.(*ssa.Store); ok {
+				if ev := w.deltaEvent(fr, st); ev != nil {
+					ev.InLoop = inLoop(b)
+					out = append(out, ev)
+				}
+				continue
+			}
 			ci, ok := ins.(ssa.CallInstruction)
 			if !ok {
 				continue
@@ -139,6 +146,67 @@ func (w *Walker) EventsOf(fr *Frame) []*Event {
 		}
 	}
 	return out
+}
+
+// deltaEvent recognises ledger updates written as field assignments:
+//
+//	x.F = x.F.Add(v) / x.F.Sub(v)      → delta:T.F:+ / delta:T.F:-  (v)
+//	x.F = x.F + v / x.F - v            → same, for machine integers
+//	x.F = <other value>                → assign:T.F                   (value)
+//
+// for fields of irismod record types (struct types declared in a module's types package).
+func (w *Walker) deltaEvent(fr *Frame, st *ssa.Store) *Event {
+	fa, ok := st.Addr.(*ssa.FieldAddr)
+	if !ok {
+		return nil
+	}
+	tn := namedOf(fa.X.Type())
+	if tn == nil || tn.Obj().Pkg() == nil || !strings.HasPrefix(tn.Obj().Pkg().Path(), modPrefix) || !strings.Contains(tn.Obj().Pkg().Path(), "/types") {
+		return nil
+	}
+	// composite literal construction is not an update
+	if base, ok := fa.X.(*ssa.Alloc); ok {
+		whole := false
+		for _, r := range *base.Referrers() {
+			if s2, ok := r.(*ssa.Store); ok && s2.Addr == base {
+				whole = true
+			}
+		}
+		if !whole {
+			return nil
+		}
+	}
+	fname := tn.Obj().Name() + "." + fieldNameShort(fa.X.Type(), fa.Field)
+	sameField := func(v ssa.Value) bool {
+		u, ok := v.(*ssa.UnOp)
+		if !ok || u.Op != token.MUL {
+			return false
+		}
+		f2, ok := u.X.(*ssa.FieldAddr)
+		return ok && f2.Field == fa.Field && sameValue(f2.X, fa.X)
+	}
+	switch v := st.Val.(type) {
+	case *ssa.Call:
+		_, name := calleeName(v.Common())
+		m := name[strings.LastIndex(name, ".")+1:]
+		args := v.Common().Args
+		if (m == "Add" || m == "Sub") && len(args) == 2 && sameField(args[0]) {
+			sign := "+"
+			if m == "Sub" {
+				sign = "-"
+			}
+			return &Event{Fr: fr, Kind: "delta:" + fname + ":" + sign, Site: st, Args: []*Term{w.ts.Of(args[1], fr)}}
+		}
+	case *ssa.BinOp:
+		if (v.Op == token.ADD || v.Op == token.SUB) && sameField(v.X) {
+			sign := "+"
+			if v.Op == token.SUB {
+				sign = "-"
+			}
+			return &Event{Fr: fr, Kind: "delta:" + fname + ":" + sign, Site: st, Args: []*Term{w.ts.Of(v.Y, fr)}}
+		}
+	}
+	return &Event{Fr: fr, Kind: "assign:" + fname, Site: st, Args: []*Term{w.ts.Of(st.Val, fr)}}
 }
 
 // siteMust: ins is executed on every path from its function's entry to a success exit.
@@ -697,4 +765,37 @@ func (w *Walker) callAlternatives(fr *Frame, t *Term) []Alt {
 		}
 	}
 	return nil
+}
+
+// closureAncestor: the nearest enclosing closure frame of an event (the
+// per-entry body of a store iterator) and the instruction inside that closure
+// that leads to the event.
+func closureAncestor(ev *Event) (*Frame, ssa.Instruction) {
+	var site ssa.Instruction = ev.Site
+	for f := ev.Fr; f != nil; f = f.Parent {
+		if f.MC != nil {
+			return f, site
+		}
+		if f.Call == nil {
+			return nil, nil
+		}
+		site = f.Call
+	}
+	return nil, nil
+}
+
+// mustBelowSite: between the closure frame cf and the event every call is a must
+// call of its function (errors need not propagate inside iterator bodies).
+func mustBelowSite(ev *Event, cf *Frame) bool {
+	var site ssa.Instruction = ev.Site
+	for f := ev.Fr; f != nil && f != cf; f = f.Parent {
+		if !siteMust(site) {
+			return false
+		}
+		if f.Call == nil {
+			return false
+		}
+		site = f.Call
+	}
+	return true
 }
